@@ -293,6 +293,42 @@ pub fn run(cfg: &Cfg, rep: &mut Report) {
             }
         }
     });
+    // the same acceptance table through the typed accessors of `Parameters` (required and optional): an element of a type the
+    // target does not accept is an error there too - never "absent", never a value
+    run_cases(cfg, "matrix-through-accessors", cfg.n(10, 100_000, 10_000_000), rep, |rng, ctx| {
+        use scpi::parser::parameters::Parameters;
+        let text: &[u8] = *rng.pick(&[&b"'1.5'"[..], b"\"ON\"", b"#H10", b"(1)", b"#13abc", b"1.5", b"12", b"ABC", b"ON", b"MAX", b"1 V", b"2.5 KHZ"]);
+        macro_rules! acc {
+            ($t:ty, $name:literal) => {{
+                bump(ctx, 1);
+                let first = match Tokenizer::new_params(text).next() {
+                    Some(Ok(t)) => t,
+                    _ => return,
+                };
+                let direct = <$t>::try_from(first).is_ok();
+                let mut a = Tokenizer::new_params(text).peekable();
+                let req = Parameters::with(&mut a).next_data::<$t>();
+                let mut b = Tokenizer::new_params(text).peekable();
+                let opt = Parameters::with(&mut b).next_optional_data::<$t>();
+                ctx.nontrivial(mix(hash_bytes(text), hash_str($name)));
+                ctx.count(if direct { "accessors.accepted" } else { "accessors.refused" });
+                let ok = req.is_ok() == direct && match &opt { Ok(Some(_)) => direct, Ok(None) => false, Err(_) => !direct };
+                if !ok {
+                    ctx.violation(&format!("C08:accessor-disagrees-with-the-conversion:{}", $name), jobj(&[("data", jbytes(text)), ("conversion_accepts", direct.to_string()), ("next_data", jstr(&format!("{:?}", req.as_ref().map(|_| ()).map_err(|e| e.get_code())))), ("next_optional_data", jstr(&format!("{:?}", opt.as_ref().map(|o| o.is_some()).map_err(|e| e.get_code()))))]));
+                }
+            }};
+        }
+        match ctx.index % 8 {
+            0 => acc!(f32, "f32"),
+            1 => acc!(f64, "f64"),
+            2 => acc!(bool, "bool"),
+            3 => acc!(u16, "u16"),
+            4 => acc!(i64, "i64"),
+            5 => acc!(&[u8], "&[u8]"),
+            6 => acc!(&str, "&str"),
+            _ => acc!(Character, "Character"),
+        }
+    });
     let n = cfg.n(50, 1_500_000, 240_000_000);
     run_cases(cfg, "bool", n, rep, |rng, ctx| {
         let lit = match rng.usize(8) {
